@@ -10,15 +10,16 @@ One file (one column) per case.  The contract is evaluated on the result of the 
 
 `expected` is computed from the values handed to the encoder by plain python / numpy-free arithmetic
 (days -> ns etc.), never by fastparquet.  Whether ints/bools come back as nullable extension arrays is
-not checked (C17).  Decodes that may crash natively (delta widths >= 29, bit-packed widths >= 25) run in
-a subprocess; death by signal / timeout is a failed case.
+not checked (C17).  Every decode runs in a forked child (runtime.c15_assembly.resilient): decodes that may crash
+natively (delta widths >= 29, bit-packed widths >= 25, unsupported constructs) get a child of their own, the others share
+children that are replaced when one dies; death by signal is a failed case, never the end of the check.  Replay
+snippets of such cases re-run themselves in a subprocess.
 """
 import base64
 import json
 import os
 import random
 import struct
-import subprocess
 import sys
 import time
 from concurrent.futures import ProcessPoolExecutor
